@@ -27,6 +27,9 @@ Ids(hl, when) == LET sel == SelectSeq(hl, LAMBDA x : x.when = when) IN [i \in 1.
 SameLoop(o, st) == o.rip = st.rip /\ o.count = st.count /\ o.finished = st.finished /\ o.max = st.max
 
 \* ---- one step -------------------------------------------------------------------------------------
+\* the stack height (in slots above the level init_stack left) is a projection of the logged pre-state, like the flags:
+\* e.ann.sh = 0 iff RSP holds the value init_stack gave it
+SD(e) == [s EXCEPT !.depth = e.ann.sh]
 StepBad(e) ==
   LET g == Gate(s) a == e.ann f == e.fl o == e.obs IN
   IF g # "go" THEN
@@ -34,6 +37,7 @@ StepBad(e) ==
        \cup (IF ObsOf(e) # prev THEN {"C11:failed-step-after-" \o g \o "-changed-state"} ELSE {})
        \cup (IF e.hl # <<>> THEN {"C12:hook-ran-after-" \o g} ELSE {})
   ELSE IF e.k = "crash" THEN {"crash"}
+  ELSE IF a.kind = "skip" THEN {}     \* outcome depends on memory the tracer does not know (RET/POP above the initial stack level)
   ELSE
   LET HB == HooksFor(hooks, a.mnem, "before")
       HA == HooksFor(hooks, a.mnem, "after")
@@ -60,7 +64,7 @@ StepBad(e) ==
   ELSE
   LET rb == PhaseResult(LB, HB)
       nohook == a.kind = "syscall" /\ HB = <<>> /\ HA = <<>>
-      s2 == Effect(s, a, f)
+      s2 == Effect(SD(e), a, f)
   IN
   IF rb = "error" THEN (IF e.k # "err" THEN {"C12:failing-before-hook-step-ok"} ELSE {})
   ELSE IF rb = "stop" THEN
@@ -93,12 +97,9 @@ StepBad(e) ==
        \cup (IF o.max # s.max THEN {"C11:max-changed"} ELSE {})
 
 \* flow after the event (the effect happened iff the count advanced)
-FlowAfter(e) == IF e.ev = "execute" /\ e.hasobs THEN Decompress(e.trace)
+FlowAfter(e) == IF (e.ev = "execute" \/ (e.ev = "step" /\ e.ann.kind = "skip")) /\ e.hasobs THEN Decompress(e.trace)
                 ELSE IF e.ev = "step" /\ Gate(s) = "go" /\ e.ann.kind # "nofetch" /\ e.obs.count = s.count + 1
-                THEN flow \o FlowEvent(s, e.ann, e.fl) ELSE flow
-DepthAfter(e) == IF e.ev = "execute" /\ e.hasobs THEN DepthOf(Decompress(e.trace))
-                 ELSE IF e.ev = "step" /\ Gate(s) = "go" /\ e.ann.kind # "nofetch" /\ e.obs.count = s.count + 1
-                 THEN Effect(s, e.ann, e.fl).depth ELSE s.depth
+                THEN flow \o FlowEvent(SD(e), e.ann, e.fl) ELSE flow
 
 TraceBad(e) ==
   LET fl2 == FlowAfter(e) IN
@@ -108,7 +109,11 @@ TraceBad(e) ==
 Bad(e) ==
   CASE e.ev = "step" -> StepBad(e) \cup (IF e.k # "crash" /\ e.hasobs THEN TraceBad(e) ELSE {})
     [] e.ev = "execute" ->
-         (IF e.hasref /\ e.k # e.ref.k THEN {"C11:execute-result-differs-from-stepping"} ELSE {})
+         \* running to completion = stepping repeatedly: on a machine whose next step is refused (finished, limit reached)
+         \* execute() is refused too and changes nothing
+         (IF Gate(s) # "go" /\ e.k # "err" THEN {"C11:execute-after-" \o Gate(s) \o "-did-not-fail"} ELSE {})
+         \cup (IF Gate(s) # "go" /\ e.hasobs /\ ObsOf(e) # prev THEN {"C11:execute-after-" \o Gate(s) \o "-changed-state"} ELSE {})
+         \cup (IF e.hasref /\ e.k # e.ref.k THEN {"C11:execute-result-differs-from-stepping"} ELSE {})
          \cup (IF e.hasref /\ ObsOf(e) # e.ref.obs THEN {"C11:execute-state-differs-from-stepping"} ELSE {})
          \cup (IF e.k = "crash" THEN {"crash"} ELSE {})
     [] e.ev = "hook" ->
@@ -124,7 +129,7 @@ Next == /\ l <= Len(Rec)
              /\ flow' = IF e.ev = "new" THEN <<[ip |-> 0, target |-> e.obs.rip, var |-> "call"]>> ELSE FlowAfter(e)
              /\ hooks' = IF e.ev = "new" THEN <<>>
                          ELSE IF e.ev = "hook" /\ e.k = "ok" THEN Append(hooks, e.hook) ELSE hooks
-             /\ s' = LET base == IF e.ev = "new" THEN [S0 EXCEPT !.code_end = e.planned_end] ELSE [s EXCEPT !.depth = DepthAfter(e)]
+             /\ s' = LET base == IF e.ev = "new" THEN [S0 EXCEPT !.code_end = e.planned_end] ELSE s
                          st == IF e.hasobs THEN Adopt(base, e.obs) ELSE base
                      IN IF e.ev = "init_stack" /\ e.k = "ok" THEN [st EXCEPT !.hasstack = TRUE, !.depth = 0] ELSE st
              /\ prev' = IF e.hasobs THEN ObsOf(e) ELSE prev
